@@ -10,7 +10,8 @@
    from /repo on every run (Gen/TemplateGen.v). *)
 From Coq Require Import String Ascii List Bool ZArith NArith.
 From V Require Import Model.Template Model.Datastore Gen.TemplateGen Model.DatastoreCheck
-                      Proofs.TemplateProofs Proofs.DatastoreProofs Proofs.DatastoreProofs2.
+                      Proofs.TemplateProofs Proofs.DatastoreProofs Proofs.DatastoreProofs2
+                      Proofs.DatastoreProofsX1 Proofs.TemplateProofsX1.
 Import ListNotations.
 Open Scope string_scope.
 
@@ -75,6 +76,45 @@ Section C01.
   Theorem refused_noop_partial : forall c s x s' e,
     step c s x = (s', Refused e) -> reingest obj bytes s x = false -> s' = s.
   Proof. exact (refused_noop_partial_p obj bytes enc dec size path_of ext_of). Qed.
+
+  (* ... lifted: the EXACT effect of every refused operation.  Either the state is identical, or the operation is
+     the ingest of a dataset the (file / chained) datastore already holds, it is refused with Conflict, and the one
+     and only change is that the artifact at the path the ingest was going to write is gone *)
+  Theorem refused_exact : forall c s x s' e,
+    step c s x = (s', Refused e) ->
+    s' = s
+    \/ exists mv id i b p,
+         x = Ingest obj bytes mv id i b /\ has_rec obj bytes s id = true /\ c_kind c <> KMem
+         /\ file_path path_of ext_of i (c_fmt c) = FOk p /\ e = Conflict /\ s' = drop_artifact obj bytes s p.
+  Proof. exact (refused_exact_p obj bytes enc dec size path_of ext_of). Qed.
+
+  (* what that means for the observables: registry identities, tag membership, records, in-memory store, the
+     specification field and `held` never change under a refused operation; the artifacts change only for the
+     re-ingest; and a dataset reads back differently afterwards only if its record points at the lost path, in
+     which case the file datastore answers NotFound *)
+  Theorem refused_effect : forall c s x s' e,
+    step c s x = (s', Refused e) ->
+    reg s' = reg s /\ tags s' = tags s /\ recs s' = recs s /\ mem s' = mem s /\ orig s' = orig s
+    /\ (forall id, held obj bytes c s' id = held obj bytes c s id)
+    /\ (reingest obj bytes s x = false -> fs s' = fs s)
+    /\ (forall id, get c s' id <> get c s id ->
+          exists mv k i b p, x = Ingest obj bytes mv k i b /\ has_rec obj bytes s k = true
+                             /\ file_path path_of ext_of i (c_fmt c) = FOk p /\ uses_path obj bytes s id p = true
+                             /\ get_file obj bytes dec size s' id = Fail NotFound).
+  Proof. exact (refused_effect_p obj bytes enc dec size path_of ext_of). Qed.
+
+  (* a refused operation (the re-ingest included) never changes what ANOTHER dataset reads back as, when no other
+     record shares the path it was going to write *)
+  Theorem refused_frame : forall c s x s' e id,
+    step c s x = (s', Refused e) ->
+    collision_free obj bytes path_of ext_of c s x = true -> touches obj bytes x id = false ->
+    get c s' id = get c s id.
+  Proof. exact (refused_frame_p obj bytes enc dec size path_of ext_of). Qed.
+
+  (* histories: every refused operation other than a re-ingest can be erased from any history, from any state *)
+  Theorem erase_refused_same : forall c h s,
+    run c s (erase_refused obj bytes enc dec size path_of ext_of c s h) = run c s h.
+  Proof. exact (erase_refused_same_p obj bytes enc dec size path_of ext_of). Qed.
 End C01.
 
 Print Assumptions get_returns_stored.
@@ -84,6 +124,10 @@ Print Assumptions frame_put_delete.
 Print Assumptions frame_remove.
 Print Assumptions identity_stable.
 Print Assumptions refused_noop_partial.
+Print Assumptions refused_exact.
+Print Assumptions refused_effect.
+Print Assumptions refused_frame.
+Print Assumptions erase_refused_same.
 
 (* ---- refuted without the guard (witnesses replayed on the implementation: corpus/C01/01..03) ---------- *)
 
@@ -146,7 +190,53 @@ Theorem template_injective_partial : forall (pre post : string) (keep : bool) (v
 Proof. exact template_injective_partial_p. Qed.
 Print Assumptions template_injective_partial.
 
+(* SEVERAL fields varying together, through the WHOLE of `format` (sanitising, optional fields, tail rewriting,
+   normpath, containment check) over the regenerated default template and tables: if two field assignments define
+   the same template fields (same_shape), every value the template uses is non-empty and free of the separator
+   characters (first characters of the template's literals, here "/", "_", ".") and of every rewritten character,
+   and the written literals contain nothing the tail table rewrites (no component), then equal paths imply equal
+   values for EVERY template field.  (separator_collision_refuted shows the separator guard is necessary.) *)
+Theorem template_injective : forall fs1 fs2 p,
+  same_shape (fst GEN_DEFAULT) fs1 fs2 = true ->
+  gen_guarded GEN_DEFAULT fs1 = true -> gen_guarded GEN_DEFAULT fs2 = true ->
+  gen_format GEN_DEFAULT fs1 = FOk p -> gen_format GEN_DEFAULT fs2 = FOk p ->
+  vals (fst GEN_DEFAULT) fs1 = vals (fst GEN_DEFAULT) fs2.
+Proof. exact template_injective_p. Qed.
+Print Assumptions template_injective.
+
+(* the same for the second shipped template (physical_filter+detector+exposure) *)
+Theorem template_injective_raw : forall fs1 fs2 p,
+  same_shape (fst GEN_RAW) fs1 fs2 = true ->
+  gen_guarded GEN_RAW fs1 = true -> gen_guarded GEN_RAW fs2 = true ->
+  gen_format GEN_RAW fs1 = FOk p -> gen_format GEN_RAW fs2 = FOk p ->
+  vals (fst GEN_RAW) fs1 = vals (fst GEN_RAW) fs2.
+Proof. exact template_injective_raw_p. Qed.
+Print Assumptions template_injective_raw.
+
+(* under the guard the template never refuses (no FOutside): the result is the non-empty "/"-components of the
+   raw text joined by "/" *)
+Theorem template_guarded_total : forall fs o,
+  gen_guarded GEN_DEFAULT fs = true -> format_raw GEN_SAN_VALUE GEN_SAN_SLASH (fst GEN_DEFAULT) fs "" = Some o ->
+  gen_format GEN_DEFAULT fs = FOk (pth (nz (split_slash o))).
+Proof. exact template_guarded_total_p. Qed.
+Print Assumptions template_guarded_total.
+
+(* transfers between datastore kinds (Model/DatastoreCheck.v, compared on every run): a refused pair changes nothing *)
+Theorem xfer_refused_noop : forall tbl cd cs dst src id,
+  xfer_refused (c_kind cd) (c_kind cs) (has_mem cobj cbytes src id) = true ->
+  xfer tbl cd cs dst src id = (dst, Refused TypeErr).
+Proof. intros tbl cd cs dst src id H. unfold xfer. rewrite H. reflexivity. Qed.
+Print Assumptions xfer_refused_noop.
+
 (* ---- non-vacuity ---------------------------------------------------------------------------------- *)
+Example template_guard_satisfiable :
+  same_shape (fst GEN_DEFAULT) ex_f1 ex_f2 = true /\ gen_guarded GEN_DEFAULT ex_f1 = true /\ gen_guarded GEN_DEFAULT ex_f2 = true
+  /\ gen_format GEN_DEFAULT ex_f1 = FOk "r1/dtD/dtD_HSC_S0_r1" /\ gen_format GEN_DEFAULT ex_f2 = FOk "r1/dtD/dtD_LATISS_R22-S11_r1"
+  /\ gen_guarded GEN_DEFAULT (fields_D "dtD" "r1" "A_B" "1" "C") = false
+  /\ gen_guarded GEN_DEFAULT (fields_I "dt1" "r1" "Cam A") = false
+  /\ gen_guarded GEN_DEFAULT (fields_I "dt1" "u/r2" "CamB") = false.
+Proof. exact guard_examples. Qed.
+
 Example codec_hypothesis_satisfiable : forall tbl f o, c_dec f (c_enc tbl f o) = Some o.
 Proof. exact c_codec. Qed.
 
